@@ -33,8 +33,10 @@ ALLP = tuple(PHASES)
 # class -> [(variant text, phases it can be written in)]
 DEFECTS = {
     'syntax': [('cd a b', ALLP), ("file x.txt = 'unterminated", ALLP), ('env X', ALLP), ('def string', ALLP),
-               ('cd -rel', ALLP), ('file -rel-home hf.txt = "x"', ALLP), ('exit-code', ('assert',)),
-               ('stdout -from', ('assert',))],
+               ('cd -rel', ALLP), ('file -rel-home hf.txt = "x"', ALLP)],
+    # removed after a thorough run: 'stdout -from' and 'exit-code' without operands continue on the following lines
+    # ('stdout -from' + '% m-as' + 'run % x3' IS a valid instruction), i.e. they are not errors irrespective of what
+    # follows - a false alarm of the catalogue, not a defect
     'unknown_instruction': [('no-such-instruction x', ALLP), ('exit-code == 0', ('setup', 'cleanup')),
                             ('stdin = "x"', ('assert', 'cleanup'))],
     'undefined_symbol': [('file u.txt = @[UNDEF]@', ALLP), ('def string X = @[UNDEF]@', ALLP),
